@@ -234,6 +234,10 @@ pub fn run_prop(ctx: &Ctx, sink: &mut Sink) {
         // thousands of small environment variables: their pointers count as much as their bytes
         SysCase { stack: 8 << 20, n: 0, s: 0, envc: 3000, envlen: 10, groups: vec![(300_000, 1)] },
         SysCase { stack: 512 << 10, n: 0, s: 0, envc: 1500, envlen: 9, groups: vec![(80_000, 1)] },
+        // a large -s does not replace the system limits: argv pointers and the per-argument limit still apply
+        SysCase { stack: 8 << 20, n: 0, s: 1_000_000, envc: 0, envlen: 0, groups: vec![(300_000, 1)] },
+        SysCase { stack: 8 << 20, n: 0, s: 200_000, envc: 0, envlen: 0, groups: vec![(3, 10), (1, 150_000), (3, 10)] },
+        SysCase { stack: 8 << 20, n: 0, s: 1_900_000, envc: 0, envlen: 0, groups: vec![(2000, 900)] },
     ];
     let nrand = if ctx.thorough { 70 } else { 6 };
     for _ in 0..nrand {
